@@ -41,8 +41,24 @@ func main() {
 	verif := flag.String("verif", "/verif", "verification directory (evidence, KNOWN_FINDINGS.txt)")
 	list := flag.Bool("list", false, "list implemented properties")
 	dump := flag.String("dump", "", "debug: print the SSA of pkg:recv:name (recv may be empty) and exit")
+	rules := flag.Bool("rules", false, "print the rule inventory (markdown) and exit")
 	warm := flag.Bool("warm", false, "load the repository once (fills the build cache) and exit")
 	flag.Parse()
+	if *rules {
+		var ids []string
+		for id := range registry {
+			ids = append(ids, id)
+		}
+		sort.Strings(ids)
+		fmt.Println("| property | rule | what it requires of the source | confirmed instances |")
+		fmt.Println("|---|---|---|---|")
+		for _, id := range ids {
+			for _, rd := range registry[id].Rules {
+				fmt.Printf("| %s | %s | %s | %d |\n", id, rd.ID, rd.Doc, rd.Floor)
+			}
+		}
+		return
+	}
 	if *warm {
 		if _, err := Load(LoadOpts{Repo: *repo}); err != nil {
 			fmt.Fprintln(os.Stderr, "carlint: warm-up load failed:", err)
